@@ -287,6 +287,10 @@ def build(config, history, comps, out_len, strategy="es", tol=0.5, perform_kwarg
             r.result = sa.continue_adaptive_refinement(tol=tol)
         elif resume[1] == "continue":
             r.result = sa.continue_adaptive_refinement(tol=tol)
+        elif resume[1] == "final_combi_then_continue":
+            # the user asks for a from-scratch re-evaluation of the stopped run, looks at it, and then continues the run
+            r.final_combi = np.array(sa.evaluate_final_combi()[0], dtype=float).copy()
+            r.result = sa.continue_adaptive_refinement(tol=tol)
         else:
             r.result = sa.performSpatiallyAdaptiv(config["lmin"], config["lmax"], eo, tol=tol, print_output=False,
                                                   refinement_container=r.result[0], **(perform_kwargs or {}))
